@@ -511,4 +511,148 @@ Proof.
     assert (Fin ch = Fin c1) by (eapply (row_cost_unique rows Rnodup); eauto). inversion H; subst ch.
     rewrite FrJh. apply (Edge eq_refl j c H1).
 Qed.
+(* one iteration of the loop, as a case distinction that does not presuppose the result: it returns; or it fails (empty
+   rebuild of scan / undefined cost lookup of an assigned column); or it continues from a state that again satisfies the
+   invariant with one more ready column *)
+Lemma aug_iterR : FinV n v -> forall f s mu,
+  K s mu -> Fd (g_d s) -> Gd (g_d s) (g_ready s) ->
+  (exists s' j1, aug_loop (S f) r n PInf rows y v s = Some (s', j1))
+  \/ ((g_scan s = [] /\ snd (aug_min r n (g_d s) (g_done s) (g_todo s) PInf []) = []) \/
+      (exists jh, (jh < n)%nat /\ getn y jh n <> n /\ cost_at (rowget rows (getn y jh n)) jh = None))
+  \/ (exists s3 m3, K s3 m3 /\ Fd (g_d s3) /\ Gd (g_d s3) (g_ready s3) /\ length (g_ready s3) = S (length (g_ready s)) /\
+        aug_loop (S f) r n PInf rows y v s = aug_loop f r n PInf rows y v s3).
+Proof.
+  intros FV. pose proof HInv as [Lx [Ly [_ SL]]].
+  intros f s mu HK HF HG; cbn [aug_loop].
+  assert (RF : exists s1 found m',
+            (match g_scan s with
+             | [] => let '(umin, scan) := aug_min r n (g_d s) (g_done s) (g_todo s) PInf [] in
+                     let '(found, done') := aug_first_free r n y scan (g_done s) in
+                     (mkAug (g_d s) (g_pred s) done' (g_ontodo s) (g_todo s) scan (g_ready s) umin, found)
+             | _ => (s, None)
+             end) = (s1, found) /\
+            (found = None -> g_scan s1 <> [] -> K s1 m' /\ Fd (g_d s1) /\ Gd (g_d s1) (g_ready s1)) /\
+            (found = None -> g_scan s1 = [] -> g_scan s = [] /\ snd (aug_min r n (g_d s) (g_done s) (g_todo s) PInf []) = []) /\
+            g_ready s1 = g_ready s).
+  { destruct (g_scan s) as [|j0 sr] eqn:ES.
+    - pose proof (k_marks s mu HK) as [Ld [Lo [Nt [Ht [Nrs Hrs]]]]]. rewrite ES, app_nil_r in Nrs, Hrs.
+      pose proof (aug_min_marks r n (g_d s) (g_done s) (g_todo s) PInf [] Nt (NoDup_nil _) (fun a H => False_ind _ H)) as AM.
+      pose proof (refill_spec r n rows y PInf (fun i j c H => proj1 (Rfin i j c H)) s (k_marks s mu HK)) as RS.
+      unfold refill in RS. rewrite ES in RS.
+      assert (Tfin : forall j, In j (g_todo s) -> fin (g_d s) j) by (intros j Hj; apply (k_tfin s mu HK); apply in3; auto).
+      pose proof (aug_min_distR (g_d s) (g_done s) (g_todo s) PInf [] Tfin (or_introl (conj eq_refl eq_refl))) as AD.
+      destruct (aug_min r n (g_d s) (g_done s) (g_todo s) PInf []) as [um sc]. cbn [fst snd] in AD.
+      destruct AM as [Nsc Hsc2].
+      assert (Hsc' : forall a, In a sc -> (a < n)%nat /\ getn (g_done s) a n <> r /\ In a (g_todo s)).
+      { intros a Ha. destruct (Hsc2 a Ha) as [[]|[H1 H2]]. split; [apply Ht; auto|auto]. }
+      pose proof (aug_first_free_marks r n rows y (fun i j c H => proj1 (Rfin i j c H)) sc (g_done s) (fun a H => proj1 (Hsc' a H)) Ld) as FF.
+      pose proof (aug_first_free_assigned r n y sc (g_done s)) as FA.
+      pose proof (aug_first_free_done r n y sc (g_done s)) as FD.
+      destruct (aug_first_free r n y sc (g_done s)) as [fo done']. cbn [fst snd] in FA, FD.
+      destruct FF as [Ld' [Keep [AllN Found]]].
+      destruct AD as [[Eum [Esc _]]|[m' [Eum [Hsc [Hel _]]]]].
+      { (* nothing eligible: scan stays empty *)
+        subst um sc. exists (mkAug (g_d s) (g_pred s) done' (g_ontodo s) (g_todo s) [] (g_ready s) PInf), fo, 0.
+        split; [reflexivity|]. split; [intros _ H; cbn [g_scan] in H; contradiction|].
+        split; [intros _ _; split; reflexivity|reflexivity]. }
+      subst um.
+      assert (NotR : forall a, In a sc -> ~ In a (g_ready s)).
+      { intros a Ha Hr'. destruct (Hsc' a Ha) as [_ [N _]]. apply N. apply Hrs. auto. }
+      assert (Rest : forall j, (j < n)%nat -> ~ In j (g_ready s) -> ~ In j sc -> fin (g_d s) j -> m' <= dz (g_d s) j).
+      { intros j Hj Nr Ns Fj. destruct (in_dec Nat.eq_dec j (g_todo s)) as [Hin|Nin].
+        - apply Hel; auto. intros Ed. pose proof (k_done s mu HK j Hj Ed) as H. rewrite ES, app_nil_r in H. contradiction.
+        - exfalso. assert (E : gete (g_d s) j = PInf) by (apply (k_untouched s mu HK j Hj Nin); rewrite ES, app_nil_r; exact Nr).
+          destruct Fj as [z Hz]. congruence. }
+      assert (MuLe : sc <> [] -> g_ready s <> [] -> mu <= m').
+      { intros Hne Rne. destruct sc as [|a l]; [contradiction|]. rewrite <- (Hsc a (or_introl eq_refl)).
+        apply (k_rest s mu HK (app_ne _ _ Rne) a); [apply Hsc'; left; auto| |apply Tfin; apply Hsc'; left; auto].
+        rewrite ES, app_nil_r. apply NotR. left. auto. }
+      exists (mkAug (g_d s) (g_pred s) done' (g_ontodo s) (g_todo s) sc (g_ready s) (Fin m')), fo, m'.
+      split; [reflexivity|]. split.
+      + intros Efo Hne. cbn [g_scan] in Hne. subst fo. destruct RS as [_ [_ [_ [_ [_ [RN _]]]]]]. destruct (RN eq_refl) as [M1 _].
+        split; [|split; [exact HF|exact HG]].
+        constructor; cbn [g_d g_pred g_done g_ontodo g_todo g_scan g_ready g_umin].
+        * exact M1.
+        * reflexivity.
+        * intros j Hj. destruct (g_ready s) as [|a0 l0] eqn:ER; [destruct Hj|]. rewrite <- ER in *.
+          pose proof (k_ready s mu HK j Hj). assert (mu <= m') by (apply MuLe; auto; rewrite ER; discriminate). lia.
+        * exact Hsc.
+        * intros _ j Hj Nj Fj. apply Rest; auto; intros H; apply Nj; apply in_app_iff; [left|right]; auto.
+        * apply (k_dlen s mu HK).
+        * apply (k_dfin s mu HK).
+        * apply (k_plen s mu HK).
+        * intros j Hj Nt' Nrs'. apply (k_untouched s mu HK j Hj Nt'). rewrite ES, app_nil_r. intros H. apply Nrs'. apply in_app_iff. left. auto.
+        * apply (k_todo s mu HK).
+        * intros j Hj Ed. destruct (FD j Ed) as [H|H]; [|apply in_app_iff; right; auto].
+          pose proof (k_done s mu HK j Hj H) as H'. rewrite ES, app_nil_r in H'. apply in_app_iff. left. auto.
+        * intros j Hj. apply (k_tight s mu HK). rewrite ES. apply in3. apply in3 in Hj as [Hj|[Hj|Hj]]; auto. left. apply Hsc'; auto.
+        * intros j Hj. apply (k_tfin s mu HK). rewrite ES. apply in3. apply in3 in Hj as [Hj|[Hj|Hj]]; auto. left. apply Hsc'; auto.
+        * intros j Hj. apply in_app_iff in Hj as [Hj|Hj]; [apply (k_asg s mu HK); apply in_app_iff; left; auto|apply FA; auto].
+      + split; [|reflexivity]. intros _ Hsc0. cbn [g_scan] in Hsc0. split; [reflexivity|exact Hsc0].
+    - exists s, None, mu. split; [reflexivity|]. split; [intros _ _; auto|]. split; [intros _ H; rewrite ES in H; discriminate|reflexivity]. }
+  destruct RF as [s1 [found [m' [ERF [RN [RE ER1]]]]]]. rewrite ERF.
+  destruct found as [j|]; [left; eauto|].
+  destruct (g_scan s1) as [|jh srest] eqn:ES1; [right; left; left; apply RE; auto|].
+  destruct (RN eq_refl ltac:(discriminate)) as [HK1 [HF1 HG1]].
+  assert (Asg0 : getn y jh n <> n) by (apply (k_asg s1 m' HK1); rewrite ES1; apply in_app_iff; right; left; auto).
+  assert (Hjh0 : (jh < n)%nat).
+  { destruct (k_marks s1 m' HK1) as [_ [_ [_ [_ [_ Hrs1]]]]]. apply Hrs1. rewrite ES1. apply in_app_iff. right. left. auto. }
+  destruct (cost_at (rowget rows (getn y jh n)) jh) as [c1e|] eqn:EC; [|right; left; right; exists jh; auto].
+  apply cost_at_some_in in EC. fold (row rows (getn y jh n)) in EC.
+  destruct (Rfin _ _ _ EC) as [Hjh [c1 Ec1]]. subst c1e.
+  assert (Asg : getn y jh n <> n) by (apply (k_asg s1 m' HK1); rewrite ES1; apply in_app_iff; right; left; auto).
+  assert (SLK : forall j c, In (j, Fin c) (row rows (getn y jh n)) -> c1 - vz v jh <= c - vz v j).
+  { intros j c Hc. destruct (SL jh _ Hjh eq_refl Asg) as [_ [_ [c0 [Hc0 Hmin]]]].
+    assert (Fin c0 = Fin c1) by (eapply (row_cost_unique rows Rnodup); eauto). inversion H; subst. apply Hmin; auto. }
+  match goal with |- context [aug_relax _ _ _ _ _ _ _ ?S] => set (s2 := S) end.
+  assert (Djh : dz (g_d s1) jh = m') by (apply (k_scan s1 m' HK1); rewrite ES1; left; auto).
+  assert (HK2 : K s2 m').
+  { unfold s2. constructor; cbn [g_d g_pred g_done g_ontodo g_todo g_scan g_ready g_umin].
+    - apply Marks_pop; [apply HK1|exact ES1].
+    - apply (k_umin s1 m' HK1).
+    - intros j Hj. apply in_app_iff in Hj as [Hj|[<-|[]]]; [apply (k_ready s1 m' HK1); auto|lia].
+    - intros j Hj. apply (k_scan s1 m' HK1). rewrite ES1. right. auto.
+    - intros _ j Hj Nj Fj. apply (k_rest s1 m' HK1); [rewrite ES1; destruct (g_ready s1); discriminate|auto| |auto].
+      rewrite ES1. intros H. apply Nj. rewrite <- app_assoc. exact H.
+    - apply (k_dlen s1 m' HK1).
+    - apply (k_dfin s1 m' HK1).
+    - apply (k_plen s1 m' HK1).
+    - intros j Hj Nt Nrs. apply (k_untouched s1 m' HK1 j Hj Nt). rewrite ES1. intros H. apply Nrs. rewrite <- app_assoc. exact H.
+    - apply (k_todo s1 m' HK1).
+    - intros j Hj Ed. pose proof (k_done s1 m' HK1 j Hj Ed) as H. rewrite ES1 in H. rewrite <- app_assoc. exact H.
+    - intros j Hj. apply (tight_ready_mono r n rows y v _ _ (g_ready s1)); [intros a Ha; apply in_app_iff; left; auto|].
+      apply (k_tight s1 m' HK1). rewrite ES1. apply in3. apply in3 in Hj as [Hj|[Hj|Hj]]; auto.
+      + right; left; right; auto.
+      + apply in_app_iff in Hj as [Hj|[<-|[]]]; [right; right; auto|right; left; left; auto].
+    - intros j Hj. apply (k_tfin s1 m' HK1). rewrite ES1. apply in3. apply in3 in Hj as [Hj|[Hj|Hj]]; auto.
+      + right; left; right; auto.
+      + apply in_app_iff in Hj as [Hj|[<-|[]]]; [right; right; auto|right; left; left; auto].
+    - intros j Hj. apply (k_asg s1 m' HK1). rewrite ES1. rewrite <- app_assoc in Hj. exact Hj. }
+  assert (Hjh2 : In jh (g_ready s2)) by (unfold s2; cbn [g_ready]; apply in_app_iff; right; left; auto).
+  pose proof (aug_relax_dist jh c1 m' Hjh FV SLK EC (rowget rows (getn y jh n)) s2 (fun j c H => H) HK2 Hjh2 Djh) as RD.
+  unfold RelaxPost in RD. rewrite (k_umin s1 m' HK1).
+  pose proof (aug_relax_umin (getn y jh n) (esub (esub (Fin c1) (gete v jh)) (Fin m')) (rowget rows (getn y jh n)) s2) as EU.
+  destruct (aug_relax r n (getn y jh n) y v (esub (esub (Fin c1) (gete v jh)) (Fin m')) (rowget rows (getn y jh n)) s2) as [s3 f3].
+  cbn [fst snd] in RD, EU. destruct RD as [KN [KX [ER [Mono [Froz [Edge Exit]]]]]].
+  assert (EU3 : g_umin s3 = Fin m') by (rewrite EU; unfold s2; cbn [g_umin]; apply (k_umin s1 m' HK1)).
+  assert (R2 : g_ready s2 = g_ready s1 ++ [jh]) by reflexivity.
+  assert (D2 : g_d s2 = g_d s1) by reflexivity.
+  assert (FrozD : forall jh', In jh' (g_ready s2) -> dz (g_d s3) jh' = dz (g_d s1) jh').
+  { intros jh' Hr'. unfold dz. rewrite Froz; [rewrite D2; auto|]. apply (K_rs_done s2 m' jh' HK2). apply in_app_iff. left. exact Hr'. }
+  assert (FrJh : dz (g_d s3) jh = m') by (rewrite (FrozD jh Hjh2); exact Djh).
+  assert (HF3 : Fd (g_d s3)).
+  { intros j c Hc. destruct (HF1 j c Hc) as [F1 L1]. rewrite <- D2 in F1. destruct (Mono j F1) as [F3 L3]. split; auto. rewrite D2 in L3. lia. }
+  assert (Old : forall jh' j c ch, In jh' (g_ready s1) -> In (j, Fin c) (row rows (getn y jh' n)) -> In (jh', Fin ch) (row rows (getn y jh' n)) ->
+            fin (g_d s3) j /\ dz (g_d s3) j <= dz (g_d s3) jh' + (c - vz v j) - (ch - vz v jh')).
+  { intros jh' j c ch Hr' H1 H2. destruct (HG1 jh' j c ch Hr' H1 H2) as [F1 L1]. rewrite <- D2 in F1.
+    destruct (Mono j F1) as [F3 L3]. split; auto. rewrite D2 in L3.
+    rewrite (FrozD jh'); [lia|]. rewrite R2. apply in_app_iff. left. auto. }
+  destruct f3 as [j|]; [left; eauto|].
+  right. right. exists s3, m'. split; [exact (KN eq_refl)|]. split; [exact HF3|]. split; [|split; [|reflexivity]].
+  - intros jh' j c ch Hr' H1 H2. rewrite ER, R2 in Hr'. apply in_app_iff in Hr' as [Hr'|[<-|[]]]; [apply Old; auto|].
+    assert (Fin ch = Fin c1) by (eapply (row_cost_unique rows Rnodup); eauto). inversion H; subst ch.
+    rewrite FrJh. apply (Edge eq_refl j c H1).
+  - rewrite ER, R2, app_length, ER1. cbn [length]. lia.
+Qed.
+
 End DistR.
